@@ -173,7 +173,15 @@ def _pchip_derivatives(
 
     # excludes zeros + sign changes
     mask_same_sign = (torch.sign(delta_l) * torch.sign(delta_r)) > 0
-    dh = _weighted_harmonic_mean(delta_l, delta_r, h_l, h_r)
+    # Where the harmonic mean is discarded (a zero secant), evaluate it on safe operands:
+    # 1/0 in the unselected branch of torch.where still yields NaN gradients.
+    ones = torch.ones_like(delta_l)
+    dh = _weighted_harmonic_mean(
+        torch.where(mask_same_sign, delta_l, ones),
+        torch.where(mask_same_sign, delta_r, ones),
+        h_l,
+        h_r,
+    )
     d[1:-1] = torch.where(mask_same_sign, dh, torch.zeros_like(dh))
 
     # Endpoints (one-sided + limiter)
